@@ -353,6 +353,15 @@ impl EventGen for Container {
                 };
                 events.extend(&evlist);
                 events.push(OutputEvent::End(self.0.name.clone()));
+                if self.0.name == "clipPath"
+                    && !evlist
+                        .iter()
+                        .any(|ev| matches!(ev, OutputEvent::Start(_) | OutputEvent::Empty(_)))
+                {
+                    // (nothing in it, so nothing of what it clips is let through)
+                    new_el.rendered_empty = true;
+                    context.update_element(&new_el);
+                }
 
                 if self.0.name == "defs" || self.0.name == "symbol" {
                     bbox = None;
